@@ -2,32 +2,9 @@
 Require Import Cirbo.Model.Base Cirbo.Model.Gate Cirbo.Model.Circuit Cirbo.Model.Traverse Cirbo.Model.Eval
         Cirbo.Model.PatternSim.
 Require Import Cirbo.Generated.GateTypes Cirbo.Generated.PatternOps Cirbo.Model.SubcircuitPrims Cirbo.Model.SubcircuitAlg.
-Require Import Cirbo.Generated.SubcircuitAlgGen Cirbo.Proofs.SubcircuitPrimsFacts Cirbo.Proofs.SubcircuitAlgGenCone
+Require Import Cirbo.Generated.SubcircuitAlgGen Cirbo.Model.SubcircuitGlue Cirbo.Proofs.SubcircuitPrimsFacts Cirbo.Proofs.SubcircuitAlgGenCone
         Cirbo.Proofs.SubcircuitAlgGenCuts.
 From Coq Require Import Permutation.
-
-(* the _Subcircuit object of one cut, with the hand-written simulation *)
-Definition subcircuit_of_cut (set_iter : list label -> list label) (c : circuit)
-           (cn : list (list label * list label)) (node_pos : dict N) (cut : list label) : res gen_Subcircuit :=
-  let leaves := set_iter (py_set_of_list cut) in
-  let ns := set_iter (cm_get cn cut []) in
-  do ks <- mapM (py_dict_getitem node_pos) ns;
-  let nodes := py_sort_keyed ks ns in
-  do d <- simulate_cone c leaves nodes;
-  do sz <- cone_size c leaves nodes;
-  do outs <- cone_outputs c leaves nodes;
-  Ok (mk_gen_Subcircuit (rev leaves) nodes outs (N.of_nat sz) [] d).
-
-Definition get_subcircuits_model (set_iter : list label -> list label) (fuel : nat) (c : circuit)
-           (cuts : list (list label)) (cn : list (list label * list label)) (max_size : N)
-  : res (list gen_Subcircuit) :=
-  let cuts := py_sort_keyed (map py_len cuts) cuts in
-  let good := filter_cuts cn cuts in
-  do cn' <- foldM (fill_cut set_iter fuel c) good cn;
-  do order <- top_sort true c;
-  let node_pos := py_dict_of_pairs (map (fun il : N * label => (snd il, fst il)) (py_enumerate order)) in
-  mapM (subcircuit_of_cut set_iter c cn' node_pos)
-       (filter (fun cut => (1 <? py_len cut)%N && (py_len cut <=? max_size)%N) good).
 
 (* ---- the table of input patterns ---- *)
 Lemma adict_find_set_same {V} (d : list (N * V)) k v : py_adict_find N.eqb (py_adict_set N.eqb d k v) k = Some v.
